@@ -243,6 +243,11 @@ def allDistinct (l : List Str) : Bool :=
   | [] => true
   | a :: r => !r.contains a && allDistinct r
 
+def distinctPairs (l : List (Str × Str)) : Bool :=
+  match l with
+  | [] => true
+  | a :: r => !r.contains a && distinctPairs r
+
 def isOk {α : Type} : Except Err α → Bool
   | .ok _ => true
   | .error _ => false
@@ -276,7 +281,10 @@ def ScpdSpec.wf (s : ScpdSpec) : Bool :=
           | none => true
           | some acts =>
               allDistinct (acts.map fun a => a.name.getD [])
-              && acts.all fun a => a.name.isSome && a.args.all fun g =>
+              && acts.all fun a => a.name.isSome
+                  -- argument names are unique per action AND direction (an in- and an out-argument may share a name)
+                  && distinctPairs (a.args.map fun g => (g.name.getD [], g.direction.getD []))
+                  && a.args.all fun g =>
                   g.name.isSome && g.direction.isSome
                   && (match g.related with
                       | some r => vars.any (fun v => stripWs (v.name.getD []) == r)
